@@ -33,3 +33,19 @@ fn h_w_duplicate_fragment() {
     assert_eq!(h.total_length, 20 + 24);
     assert_eq!(m.to_vec(), d, "the reassembled payload differs from the original datagram");
 }
+
+//# id=witness.epoch_overflow props=C11 kind=witness pair=reasm.Segment.receive_packet.safety
+// fragments of an incomplete datagram keep arriving (here: the same one 65536 times): must not crash
+#[cfg(vx_replay)]
+#[test]
+fn h_w_epoch_overflow() {
+    let d: Vec<u8> = (0u8..24).collect();
+    let mut seg = Segment::new();
+    let r = std::panic::catch_unwind(move || {
+        for _ in 0..65_536u32 {
+            let (h1, m1) = frag(2, &d[16..], false);
+            assert!(seg.receive_packet(h1, m1).is_none());
+        }
+    });
+    assert!(r.is_ok(), "receive_packet panicked while fragments kept arriving");
+}
